@@ -136,6 +136,25 @@ IParseQ(s, basefield, skipws) ==
         [ok |-> pd.ok, num |-> pn.v, den |-> pd.v, n |-> pd.n, slash |-> TRUE,
          open |-> pn.open \/ pd.open \/ (pn.n + 2 <= Len(s) /\ Ch(s, pn.n + 2) \in {"-", "+"})]       \* a signed denominator is not described
 
+(* mpf: "Read rop from stream, using its ios formatting settings.  Hex or octal floats are not supported" (always decimal).  The field
+   (cxx/ismpf.cc, following num_get for double): optional sign, digits, optionally the radix point and digits -- at least one digit in all --
+   then, only after such a mantissa, e or E, an optional sign and at least one digit.  FParse: [ok, n (characters consumed), fld (the text
+   handed to mpf_set_str: the field without leading white space and without a leading '+')] *)
+FParse(s, skipws) ==
+   LET i0 == IF skipws THEN SkipWS(s, 1) ELSE 1
+       hasSign == i0 <= Len(s) /\ Ch(s, i0) \in {"-", "+"}
+       i1 == IF hasSign THEN i0 + 1 ELSE i0
+       i2 == RunEnd(s, i1, "0123456789")
+       pt == i2 <= Len(s) /\ Ch(s, i2) = "."
+       i3 == IF pt THEN RunEnd(s, i2 + 1, "0123456789") ELSE i2
+       mant == i2 > i1 \/ (pt /\ i3 > i2 + 1)
+       ex == mant /\ i3 <= Len(s) /\ Ch(s, i3) \in {"e", "E"}
+       i4 == IF ex /\ i3 + 1 <= Len(s) /\ Ch(s, i3 + 1) \in {"-", "+"} THEN i3 + 2 ELSE i3 + 1
+       i5 == RunEnd(s, i4, "0123456789")
+       n == IF ex THEN i5 - 1 ELSE i3 - 1
+       fld == SubSeq(s, IF hasSign /\ Ch(s, i0) = "+" THEN i1 ELSE i0, n)
+   IN  [ok |-> IF ex THEN i5 > i4 ELSE mant, n |-> n, fld |-> fld]
+
 (***************************************************************************)
 (* mpf INSERTION.  "Print op to stream, using its ios formatting settings   *)
 (* ... The decimal point follows the standard library float operator<<".    *)
